@@ -159,6 +159,13 @@ fn plan(prop: &str, tier: &str) -> Plan {
         }
         fams.push(json!({"family": "clock-preloaded roots (C05)", "members": n, "depth": 2}));
     }
+    // C01 / C06 / C13: a double step that gives check and can only be answered by capturing en passant
+    if matches!(prop, "C01" | "C06" | "C13") {
+        let (after, before) = ep_only_reply();
+        let na = family_items("ep-only-reply", after, 0, &mut items);
+        let nb = family_items("ep-only-reply(before the double step)", before, 0, &mut items);
+        fams.push(json!({"family": "ep-only-reply (double step gives check, en passant is the only legal reply)", "members_after_the_step": na, "members_before_the_step": nb, "depth": 0, "complete": true, "material": "K+P+one piece against K+P"}));
+    }
     // C06: terminal family — mates and stalemates of king + one adjacent pawn (free, blocked or pinned)
     if prop == "C06" {
         let ks: Vec<Sq> = if thorough { vec![0, 1, 8, 7, 6, 15, 56, 57, 48, 63, 62, 55] } else { vec![0, 7, 56, 63] };
